@@ -342,6 +342,12 @@ def judge(ctx, root, argv, sources, references, tree, schema, use_binary):
     ctx.stats["duplicate_warnings_checked"] += 1 if ref["exact"] else 0
     ctx.stats["repeats_seen"] += ref["dups"]
     ctx.stats["alias_cases"] += 1 if (len(sources) + len(references)) > len(got) else 0
+    # "compiled" means parsed: every file of the set shows its module and its definition
+    unparsed = [f["path"] for f in r["files"] if f["module"] is None or not f["defs"]]
+    if unparsed:
+        ctx.violate("file-listed-but-not-parsed", "files are in the compiled set but were not parsed: %r (diagnostics: %r)"
+                    % (unparsed[:4], replay["observed_diags"][:3]), replay)
+        return
     if r.get("has_errors"):
         ctx.violate("valid-files-rejected", "files are all valid but compilation reported errors: %r" % replay["observed_diags"][:2], replay)
         return
